@@ -55,7 +55,8 @@ func IndexFromFile(ctx context.Context,
 	if err == nil {
 		switch t := piece.(type) {
 		case FormatEntry:
-			index.Index.FeatureFlags |= t.FeatureFlags
+			// All but the digest flag, that one describes the chunk IDs of this index
+			index.Index.FeatureFlags |= t.FeatureFlags &^ CaFormatSHA512256
 		}
 	}
 	f.Close()
